@@ -5,13 +5,21 @@ from pathlib import Path
 V = Path(__file__).resolve().parents[1]
 rows = []
 for d in sorted((V / 'seeded').iterdir()):
+    if not (d / 'meta.json').exists():
+        continue
     m = json.loads((d / 'meta.json').read_text())
     what = (m.get('what_it_breaks') or '').replace('\n', ' ').replace('|', '/')
     needs = (m.get('needs_to_manifest') or '').replace('\n', ' ').replace('|', '/')
     det = (m.get('detection') or '').replace('\n', ' ').replace('|', '/')
-    first = 'missed at first' if re.search(r'first run: (MISSED|only|exit 2|missed)', det, re.I) else 'caught on the first run'
-    rows.append(f"| {m['name']} | {m['property']} | {what[:260]} | {needs[:200]} | {first} | {det[:420]} |")
-table = ("| seeded change | property | what it does | what it needs to manifest | first run | how it is detected now |\n"
+    first = 'missed' if re.search(r'first run: (reported, but for the wrong reason|MISSED|only|exit 2|missed)', det, re.I) else 'caught'
+    sw = m.get('last_sweep') or {}
+    now = ('exit %s: %s' % (sw.get('exit'), ', '.join(sw.get('reported_as') or [])[:120])) if sw else '(not swept yet)'
+    def cut(t, n):
+        return t if len(t) <= n else t[:n - 1].rstrip() + '…'
+    rows.append(f"| {m['name']} | {cut(what, 200)} | {cut(needs, 150)} | {first} | {cut(det, 260)} | {now} |")
+table = ("Cells are cut; the full texts are in `seeded/<name>/meta.json`.  Last column: outcome of the last detection sweep "
+         "(`tools/run_seeded.py`).\n\n"
+         "| change | what it does | what it needs to manifest | first run | detection (and what was strengthened) | last sweep |\n"
          "|---|---|---|---|---|---|\n" + '\n'.join(rows) + '\n')
 p = V / 'DESIGN.md'
 s = p.read_text()
@@ -21,5 +29,5 @@ if a not in s:
 i, j = s.index(a) + len(a), s.index(b)
 s = s[:i] + '\n' + table + s[j:]
 p.write_text(s)
-n_missed = sum(1 for r in rows if 'missed at first' in r)
+n_missed = sum(1 for r in rows if '| missed |' in r)
 print(len(rows), 'seeded changes;', n_missed, 'needed a strengthening of the check')
